@@ -240,7 +240,24 @@ def run(ctx):
             ctx.cov["hook_dump_bytes"] = len(out)
 
     # ---- gate 3: proofs
+    # kernel-only route (no bv_decide axiom accepted) for the bitwise tables, reported separately
+    ok_k, fail_k = ctx.proof_gate(["Poulpy.Props.C13Kernel"], allow_bv=False)
+    kernel_thms = [t for t in ctx.theorems]
+    kernel_axioms = {t: ctx.axioms.get(t) for t in kernel_thms}
     ok, failures = ctx.proof_gate(["Poulpy.Props.C13"], allow_bv=True)
+    ctx.theorems = ctx.theorems + kernel_thms
+    ctx.cov["property_theorems"] = ctx.theorems
+    ctx.cov["kernel_only_theorems"] = {
+        "module": "Poulpy.Props.C13Kernel",
+        "theorems": kernel_thms,
+        "axioms": kernel_axioms,
+        "covers": "and / or / xor (32 per-bit circuits each, support {a_i, b_i}) and identity (32, support {a_i}): 128 of the 290 per-bit "
+                  "circuits, all inputs, by the support lemma (Lemmas/BddSupport.lean) + `decide +kernel` on the regenerated tables",
+        "ok": ok_k,
+    }
+    if not ok_k:
+        failures = list(failures) + list(fail_k)
+        ok = False
     ctx.obligations += len(gen_modules)
     if ok:
         ctx.discharged += len(gen_modules)
